@@ -714,3 +714,30 @@ Qed.
 
 Lemma indent_drops_cr : exists s, str_indent s 0 false false <> s.
 Proof. exists [97; 13; 10; 98]%N. vm_compute. discriminate. Qed.
+
+(* ------------------------------------------------------------------ trim(pat) = trim_end(pat) after trim_start(pat) *)
+
+Lemma trim_both_matches_spec p s : p <> [] ->
+  exists i j, s = copies i p ++ trim_end_matches p (trim_start_matches p s) ++ copies j p /\
+              ~ is_prefix p (trim_end_matches p (trim_start_matches p s)) /\
+              ~ is_suffix p (trim_end_matches p (trim_start_matches p s)).
+Proof.
+  intro Hp.
+  destruct (trim_start_matches_spec p s Hp) as (i & Hi & Hnp).
+  destruct (trim_end_matches_spec p (trim_start_matches p s) Hp) as (j & Hj & Hns).
+  exists i, j. split.
+  { etransitivity; [exact Hi|]. f_equal. exact Hj. }
+  split; [|exact Hns].
+  intros [x Hx]. apply Hnp. exists (x ++ copies j p).
+  etransitivity; [exact Hj|]. rewrite Hx, <- app_assoc. reflexivity.
+Qed.
+
+Lemma f_trim_pat kw s b p b' :
+  kw_find (s2l "pat") kw = Some (VStr p b') ->
+  f_trim kw (VStr s b) = BOk (vstr (trim_end_matches p (trim_start_matches p s))) /\
+  f_trim_start kw (VStr s b) = BOk (vstr (trim_start_matches p s)) /\
+  f_trim_end kw (VStr s b) = BOk (vstr (trim_end_matches p s)).
+Proof.
+  intro H. unfold f_trim, f_trim_start, f_trim_end, on_str. cbn [arg_str bbind].
+  rewrite !kw_get_spec, H. cbn [arg_str bbind]. repeat split; reflexivity.
+Qed.
